@@ -32,7 +32,8 @@ ValidType(s, im)       == HasName(s.structs, im.type)
 IsCanWithId(im)        == im.protocol = "can" /\ Has(im.fields, "id")
 UniqueCanId(s, im)     == IsCanWithId(im) =>
                              Count(AllImpls(s), LAMBDA x : IsCanWithId(x) /\ IdOf(x) = IdOf(im)) <= 1
-FitsFrame(s, im)       == (im.protocol = "can" /\ HasName(s.structs, im.type)) => BitsOf(s, StructT(im.type)) <= 64
+FitsFrame(s, im)       == (im.protocol = "can" /\ HasName(s.structs, im.type)) =>
+                             (FixedSize(s, StructT(im.type)) /\ BitsOf(s, StructT(im.type)) <= 64)
 
 (* ------------------------------------------------------------ declarative *)
 GeneralWF(s) ==
